@@ -726,6 +726,12 @@ class TrajectoryStore:
                     'data fields'
                 )
 
+        # Check required values before changing anything, so that a rejected
+        # trajectory leaves the store as it was.
+        for name, field in trajectory._data_dictionary.items():
+            if field.required and getattr(trajectory, name) is None:
+                raise ValueError(f'Data field "{name}" is None')
+
         # Decide on whether or not we can index the store, checking consistency
         # on this decision with each trajectory we add.
         has_flight_id = (
